@@ -218,7 +218,15 @@ async fn run_case(map: bool, acts: &[Act], socket_buffer: usize, expect_stop: bo
                 if let Some(k) = consumers.get_mut(*c) {
                     let ok = match &mut k.tx {
                         Some(ConsumerTx::Value(tx)) => tx.send(DownlinkOperation { body: *n }).await.is_ok(),
-                        Some(ConsumerTx::Map(tx)) => tx.send(MapOperation::Update { key: n.rem_euclid(3), value: *n }).await.is_ok(),
+                        // (Model/DlRuntime.v op_given) clear when n mod 8 = 7, remove of key n mod 3 when n mod 8 = 6, else update
+                        Some(ConsumerTx::Map(tx)) => {
+                            let op = match n.rem_euclid(8) {
+                                7 => MapOperation::Clear,
+                                6 => MapOperation::Remove { key: n.rem_euclid(3) },
+                                _ => MapOperation::Update { key: n.rem_euclid(3), value: *n },
+                            };
+                            tx.send(op).await.is_ok()
+                        }
                         None => false,
                     };
                     if ok {
@@ -250,7 +258,16 @@ async fn run_case(map: bool, acts: &[Act], socket_buffer: usize, expect_stop: bo
                             Operation::Unlink => Frame::Unlink,
                             Operation::Command(b) => {
                                 let s = String::from_utf8_lossy(b.as_ref()).to_string();
-                                let n = if map { s.rsplit(' ').next().and_then(|x| x.trim().parse().ok()) } else { s.trim().parse().ok() };
+                                // (op_sent) a clear is -100, a remove of key k is -(200 + k), an update its value
+                                let n = if !map {
+                                    s.trim().parse().ok()
+                                } else if s.trim() == "@clear" {
+                                    Some(-100)
+                                } else if let Some(rest) = s.trim().strip_prefix("@remove(key:") {
+                                    rest.trim_end_matches(')').trim().parse::<i64>().ok().map(|k| -(200 + k))
+                                } else {
+                                    s.rsplit(' ').next().and_then(|x| x.trim().parse().ok())
+                                };
                                 match n {
                                     Some(n) => Frame::Command(n),
                                     None => {
@@ -368,7 +385,8 @@ fn main() {
         let map = from_corpus.map(|c| c.0).unwrap_or(i % 3 == 2);
         let timed = from_corpus.is_some() || i % 5 == 4;
         let expect_stop = from_corpus.map(|c| c.2).unwrap_or(false);
-        let slow_socket = from_corpus.is_none() && i % 4 == 1;
+        // (map downlinks: every other case has a slow socket, so that operations pile up in the map queue)
+        let slow_socket = from_corpus.is_none() && (i % 4 == 1 || (i % 3 == 2 && i % 2 == 1));
         // a session: consumers attach at any moment; the remote answers link, events, sync at any moment
         let n = rng.range(4, 16) as usize;
         let mut acts: Vec<Act> = vec![];
@@ -440,16 +458,18 @@ fn main() {
             if !linked {
                 acts.push(Act::Remote(RMsg::Linked));
             }
-            for _ in 0..rng.range(2, 4) {
-                next_cmd += 1;
+            // (a map downlink gets longer piles with the numbers, and so the keys and kinds of operation, at random)
+            let is_map = i % 3 == 2;
+            for _ in 0..(if is_map { rng.range(3, 8) } else { rng.range(2, 4) }) {
+                next_cmd += if is_map { rng.range(1, 9) as i64 } else { 1 };
                 acts.push(Act::Command(rng.usize_below(attached), next_cmd));
             }
             if attached < 4 {
                 acts.push(Act::Attach { sync: true });
                 attached += 1;
             }
-            for _ in 0..rng.range(0, 2) {
-                next_cmd += 1;
+            for _ in 0..(if is_map { rng.range(0, 5) } else { rng.range(0, 2) }) {
+                next_cmd += if is_map { rng.range(1, 9) as i64 } else { 1 };
                 acts.push(Act::Command(rng.usize_below(attached), next_cmd));
             }
         }
@@ -539,7 +559,7 @@ fn main() {
     let meta = J::obj(vec![
         ("evaluations", J::I(w.len() as i128)),
         ("distinct_nontrivial", J::I(nontrivial as i128)),
-        ("rule", J::s("sessions of 4-16 actions against the real ValueDownlinkRuntime (two thirds) / MapDownlinkRuntime: up to four consumers attach at generated moments with or without SYNC, one to three of them go away together at generated moments (what a consumer that went away had seen must be a prefix of its session; the others' sessions must be unaffected), the simulated remote sends linked / events / synced / unlinked at generated moments, consumers send commands, the remote reads the socket either at once or (value, a quarter of the cases, 48 byte socket buffer) only now and then; what every consumer was told must be what the model's read task produces; what the remote received must be what the model's write task sends (attentive remote) and always satisfy the oracle (link first, commands a subsequence in order, sessions well formed, events in order); non-trivial = a consumer joined after the link was up")),
+        ("rule", J::s("sessions of 4-16 actions against the real ValueDownlinkRuntime (two thirds) / MapDownlinkRuntime: up to four consumers attach at generated moments with or without SYNC, one to three of them go away together at generated moments (what a consumer that went away had seen must be a prefix of its session; the others' sessions must be unaffected), the simulated remote sends linked / events / synced / unlinked at generated moments, consumers send commands, the remote reads the socket either at once or (a quarter of the value cases, half of the map cases, 48 byte socket buffer) only now and then; map commands are updates, removes and clears on three keys (per key and across a clear the operations sent must be, in order, operations given, and once everything is read the remote's replica must be the one all the operations given produce); what every consumer was told must be what the model's read task produces; what the remote received must be what the model's write task sends (attentive remote) and always satisfy the oracle (link first, commands a subsequence in order, sessions well formed, events in order); non-trivial = a consumer joined after the link was up")),
         ("structures", J::counts(&kinds)),
         ("samples", J::A(samples)),
         ("direct_failures", J::A(failures.iter().take(40).map(|f| J::s(f.chars().take(600).collect::<String>())).collect())),
